@@ -58,4 +58,16 @@ SPECS = {
             "assumptions": ["schedule S(t) evaluated in float64 (constant pacer: exact big-integer comparisons); parameter sets whose schedule or sine amplitude term exceeds 2^33 hits are skipped and counted (fewer than 20 significant bits below one hit)",
                             "for sine pacers with infinite/NaN rates (zero time unit), doubly negative rates or negative amplitudes only the absence of a panic is judged",
                             "linear pacer with a negative slope: the schedule is the integral of max(rate, 0)"]},
+    "C10": {"jobs": [{"engine": "stream", "scenario": "report-C10", "race": False, "quick": 9000, "thorough": 900000}], "rule": "one evaluation = one multiset of 0..2000 results (1 in 40 runs: 20 000-100 000) with a tape-chosen latency shape (uniform, log-normal, constant, few-valued, bimodal with a huge gap, sorted, reverse-sorted, with zeros), timestamp pattern and bucket list, added to a real Metrics (+Histogram) in 1..4 histories = orders of addition x placements of intermediate Close calls (the instants at which a periodic report ticks: before the first record, at random positions, every k records, twice at the end); every history is compared with a direct computation, and histories with each other; distinct = distinct event-log hashes",
+            "real": ["Metrics.Add/Close, LatencyMetrics, ByteMetrics (lib/metrics.go)"], "stub": ["the source of results and of Close ticks (tape)"],
+            "not_simulated": ["report -every on the real ticker inside the report command: cmd engine (when built); the quantifier over multisets is seeded generation"],
+            "assumptions": ["End = max over results of Timestamp+Latency; Rate/Throughput for a zero attack duration only finite and non-negative; float results compared within 4 ulp"]},
+    "C11": {"jobs": [{"engine": "stream", "scenario": "report-C11", "race": False, "quick": 9000, "thorough": 900000}], "rule": "one evaluation = one multiset of 0..2000 results (1 in 40 runs: 20 000-100 000) with a tape-chosen latency shape (uniform, log-normal, constant, few-valued, bimodal with a huge gap, sorted, reverse-sorted, with zeros), timestamp pattern and bucket list, added to a real Metrics (+Histogram) in 1..4 histories = orders of addition x placements of intermediate Close calls (the instants at which a periodic report ticks: before the first record, at random positions, every k records, twice at the end); every history is compared with a direct computation, and histories with each other; distinct = distinct event-log hashes",
+            "real": ["Metrics percentiles through influxdata/tdigest, NewHDRHistogramPlotReporter"], "stub": ["the source of results and of Close ticks (tape)"],
+            "not_simulated": ["the distribution shapes are workload generation; the simulator's contribution is the history of Add and Close calls (each Close forces a digest merge), judged at every tick and at the end"],
+            "assumptions": ["ranks may be counted from 0 or from 1 (weaker reading): a reported value must lie between observed values of 1-based ranks in [q*n - (1+n/100), q*n + (1+n/100) + 1]"]},
+    "C12": {"jobs": [{"engine": "stream", "scenario": "report-C12", "race": False, "quick": 9000, "thorough": 900000}], "rule": "one evaluation = one multiset of 0..2000 results (1 in 40 runs: 20 000-100 000) with a tape-chosen latency shape (uniform, log-normal, constant, few-valued, bimodal with a huge gap, sorted, reverse-sorted, with zeros), timestamp pattern and bucket list, added to a real Metrics (+Histogram) in 1..4 histories = orders of addition x placements of intermediate Close calls (the instants at which a periodic report ticks: before the first record, at random positions, every k records, twice at the end); every history is compared with a direct computation, and histories with each other; distinct = distinct event-log hashes",
+            "real": ["Histogram.Add/MarshalJSON, NewHistogramReporter, Buckets.UnmarshalText"], "stub": ["the source of results and of rendering instants (tape)"],
+            "not_simulated": ["report -type=hist[...] / -buckets flag plumbing of the report command: cmd engine (when built)"],
+            "assumptions": ["latencies are never below the first bound (the property's precondition)"]},
 }
